@@ -259,7 +259,7 @@ fn p1(d: &[u8]) -> CaseResult {
 /// (target name, property, entry, max_len, runs in the thorough tier)
 pub fn targets() -> Vec<(&'static str, &'static str, Entry, usize, u64)> {
     vec![
-        ("codec_diff", "C03", codec_diff as Entry, 4096, 3_000_000),
+        ("codec_diff", "C03", codec_diff as Entry, 20_000, 3_000_000),
         ("scheme_wire", "C04", scheme_wire as Entry, 512, 400_000),
         ("auth_preamble", "C06", auth_preamble as Entry, 2048, 1_000_000),
         ("http_rewrite", "C17", http_rewrite as Entry, 2048, 2_000_000),
@@ -299,6 +299,11 @@ pub fn gen_corpus(dir: &std::path::Path) {
     v.extend_from_slice(&all);
     w("codec_diff", "frames-two-cuts", v);
     w("codec_diff", "one-frame", [vec![0u8], rc::encode(&frames[3])].concat());
+    // a data frame larger than common read sizes, cut twice inside its payload, then a small frame
+    let mut big = vec![2u8, 0x40, 0x00, 0xC0, 0x00];
+    big.extend_from_slice(&rc::encode(&RFrame::new(rc::PSH, 5, (0..9000u32).map(|i| (i * 7 + 1) as u8).collect::<Vec<u8>>())));
+    big.extend_from_slice(&rc::encode(&RFrame::new(rc::PSH, 5, b"tail".to_vec())));
+    w("codec_diff", "large-frame-cut-inside", big);
     for (i, f) in frames.iter().enumerate() {
         let mut head = vec![1u8, 2, 3, 1];
         head.extend_from_slice(&rc::encode(f));
